@@ -22,7 +22,8 @@ CTX = Ctx()
 
 class Op:
     def __init__(self, name, args, ret, expr, oracle, cls='ui', props=(), pre=None, lane_pre=None, cmp='bits',
-                 consts=None, scalar=None, widths=None, tier='quick', note=''):
+                 consts=None, scalar=None, widths=None, tier='quick', note='', rm='sym'):
+        self.rm = rm
         self.name = name
         self.args = args
         self.ret = ret
@@ -338,19 +339,29 @@ def o_fclamp(T, x, lo, hi):
     return [r1, r2]
 
 
+def is_snan(T, x):
+    w = T.bits
+    return b_and(fp.is_nan_bits(x, w), b_not(sym.truth(sym.extract(x, fp.SB[w] - 2, fp.SB[w] - 2, w))))
+
+
+def snan_alt(T, a, b, dflt):
+    """ISO C leaves fmax/fmin of a signaling NaN unspecified (glibc and vrange return a quiet NaN): accept NaN then"""
+    return sym.ite(b_or(is_snan(T, a), is_snan(T, b)), fp.qnan_default(T.bits), dflt, T.bits)
+
+
 def o_cfmax(T, a, b):
     """C fmax: other operand when exactly one is NaN; NaN when both; else larger (either zero for +-0)"""
     w = T.bits
     na, nb_ = fp.is_nan_bits(a, w), fp.is_nan_bits(b, w)
     alts = o_fminmax_alts(T, a, b, False)
-    return [sym.ite(na, b, sym.ite(nb_, a, x, w), w) for x in alts]
+    return [sym.ite(na, b, sym.ite(nb_, a, x, w), w) for x in alts] + [snan_alt(T, a, b, alts[0])]
 
 
 def o_cfmin(T, a, b):
     w = T.bits
     na, nb_ = fp.is_nan_bits(a, w), fp.is_nan_bits(b, w)
     alts = o_fminmax_alts(T, a, b, True)
-    return [sym.ite(na, b, sym.ite(nb_, a, x, w), w) for x in alts]
+    return [sym.ite(na, b, sym.ite(nb_, a, x, w), w) for x in alts] + [snan_alt(T, a, b, alts[0])]
 
 
 def o_fdim(T, a, b):
@@ -655,7 +666,7 @@ for nm, cx in (('fadd', '+'), ('fsub', '-'), ('fmul', '*'), ('fdiv', '/')):
     op(nm, 'vv', 'v', '{0} %s {1}' % cx, lw(f_arith(nm)), F, ['C10'], cmp='fp_arith')
     op(nm + '_assign', 'vv', 'v', 'vf::%s_assign({0}, {1})' % {'fadd': 'add', 'fsub': 'sub', 'fmul': 'mul', 'fdiv': 'div'}[nm],
        lw(f_arith(nm)), F, ['C10'], cmp='fp_arith')
-op('fneg', 'v', 'v', '-{0}', lw(o_fneg), F, ['C10'])
+op('fneg', 'v', 'v', '-{0}', lw(o_fneg), F, ['C10'], cmp='fp_arith')
 op('fpos', 'v', 'v', '+{0}', lw(o_id), F, ['C10'])
 op('f_pre_inc', 'v', 'v', 'vf::pre_inc({0})', lw(o_finc), F, ['C10'], cmp='fp_arith')
 op('f_post_inc_new', 'v', 'v', 'vf::post_inc_new({0})', lw(o_finc), F, ['C10'], cmp='fp_arith')
@@ -670,16 +681,16 @@ for nm, f in (('ceil', o_ceil), ('floor', o_floor), ('trunc', o_trunc), ('round'
     op(nm, 'v', 'v', 'avel::%s({0})' % nm, lw(f), F, ['C11', 'C16'], cmp='fp_num', scalar='avel::%s({0})' % nm)
 
 # ---- C12
-op('frexp_m', 'v', 'v', 'vf::frexp_m({0})', lw(o_frexp_m), F, ['C12', 'C16'], cmp='fp_arith', scalar='vf::frexp_m_s({0})')
-op('frexp_e', 'v', 'x', 'vf::frexp_e({0})', lw(o_frexp_e), F, ['C12', 'C16'], lane_pre=frexp_e_lane_pre, scalar='vf::frexp_e_s({0})')
-op('ldexp', 'vx', 'v', 'avel::ldexp({0}, {1})', lw(o_ldexp), F, ['C12', 'C16'], cmp='fp_arith', scalar='avel::ldexp({0}, {1})')
-op('scalbn', 'vx', 'v', 'avel::scalbn({0}, {1})', lw(o_ldexp), F, ['C12', 'C16'], cmp='fp_arith', scalar='avel::scalbn({0}, {1})')
-op('ilogb', 'v', 'x', 'avel::ilogb({0})', lw(o_ilogb), F, ['C12', 'C16'], scalar='avel::ilogb({0})')
-op('logb', 'v', 'v', 'avel::logb({0})', lw(o_logb), F, ['C12', 'C16'], cmp='fp_num', scalar='avel::logb({0})')
-op('frac', 'v', 'v', 'avel::frac({0})', lw(o_frac), F, ['C12', 'C16'], cmp='fp_num', scalar='avel::frac({0})')
-op('fmax', 'vv', 'v', 'avel::fmax({0}, {1})', lw(o_cfmax), F, ['C12', 'C16'], cmp='oneof_nan', scalar='avel::fmax({0}, {1})')
-op('fmin', 'vv', 'v', 'avel::fmin({0}, {1})', lw(o_cfmin), F, ['C12', 'C16'], cmp='oneof_nan', scalar='avel::fmin({0}, {1})')
-op('fdim', 'vv', 'v', 'avel::fdim({0}, {1})', lw(o_fdim), F, ['C12', 'C16'], cmp='fp_num', lane_pre=fdim_lane_pre, scalar='avel::fdim({0}, {1})')
+op('frexp_m', 'v', 'v', 'vf::frexp_m({0})', lw(o_frexp_m), F, ['C12', 'C16'], cmp='fp_arith', scalar='vf::frexp_m_s({0})', rm='RNE')
+op('frexp_e', 'v', 'x', 'vf::frexp_e({0})', lw(o_frexp_e), F, ['C12', 'C16'], lane_pre=frexp_e_lane_pre, scalar='vf::frexp_e_s({0})', rm='RNE')
+op('ldexp', 'vx', 'v', 'avel::ldexp({0}, {1})', lw(o_ldexp), F, ['C12', 'C16'], cmp='fp_arith', scalar='avel::ldexp({0}, {1})', rm='RNE')
+op('scalbn', 'vx', 'v', 'avel::scalbn({0}, {1})', lw(o_ldexp), F, ['C12', 'C16'], cmp='fp_arith', scalar='avel::scalbn({0}, {1})', rm='RNE')
+op('ilogb', 'v', 'x', 'avel::ilogb({0})', lw(o_ilogb), F, ['C12', 'C16'], scalar='avel::ilogb({0})', rm='RNE')
+op('logb', 'v', 'v', 'avel::logb({0})', lw(o_logb), F, ['C12', 'C16'], cmp='fp_num', scalar='avel::logb({0})', rm='RNE')
+op('frac', 'v', 'v', 'avel::frac({0})', lw(o_frac), F, ['C12', 'C16'], cmp='fp_num', scalar='avel::frac({0})', rm='RNE')
+op('fmax', 'vv', 'v', 'avel::fmax({0}, {1})', lw(o_cfmax), F, ['C12', 'C16'], cmp='oneof_nan', scalar='avel::fmax({0}, {1})', rm='RNE')
+op('fmin', 'vv', 'v', 'avel::fmin({0}, {1})', lw(o_cfmin), F, ['C12', 'C16'], cmp='oneof_nan', scalar='avel::fmin({0}, {1})', rm='RNE')
+op('fdim', 'vv', 'v', 'avel::fdim({0}, {1})', lw(o_fdim), F, ['C12', 'C16'], cmp='fp_num', lane_pre=fdim_lane_pre, scalar='avel::fdim({0}, {1})', rm='RNE')
 
 # ---- C13
 op('fpclassify', 'v', 'x', 'avel::fpclassify({0})', lw(o_fpclassify), F, ['C13', 'C16'], scalar='avel::fpclassify({0})')
